@@ -31,6 +31,7 @@ BLPOOL = {1: 0.0, 2: 0.5, 3: np.array([0.25, 0.5])}
 BG = {1: np.array([0, 2, 1, 0], float), 2: np.array([0, 1, 3, 0], float)}
 XA = {1: np.array([1.0, 1.0]), 2: np.array([1.0, 1.0, 1.0]), 3: np.array([2.0, 0.0, 1.0])}
 WPOOL = {1: np.array([2.0, 1.0]), 2: np.array([1.0, 3.0])}
+UNC = {1: np.array([[0, 1, 0, 0], [0, 0, 2, 0]], float), 2: np.array([[0, 2, 1, 0], [0, 1, 1, 0]], float)}
 TGT = {1: np.array([[1.0, 1.0], [3.5, 0.25]]), 2: np.array([[0.5, 1.5]])}
 PROBES = np.array([[0.5, 0.25], [1.5, 1.5], [0.75, 2.5], [3.5, 0.5], [3.5, 3.5]])
 # representation "arraydom": the same abstract filters / spectra on an array domain of six points.  The second filter
@@ -104,6 +105,8 @@ def apply(dreye, obj, a, shadow):
         shadow["target_B"] = np.array(obj.target_B, float)
         buf[...] = 97.0
         shadow["B"] = TGT[tk].copy()
+    elif op == "register_uncertainty":
+        obj.register_uncertainty(None if k == 0 else (pad6(UNC[k]) if shadow.get("arraydom") else UNC[k].copy()))
     elif op == "fit":
         shadow["pre_fit"] = True
         obj.fit()
@@ -127,13 +130,19 @@ def fresh_from(dreye, est, B=None, arraydom=False):
         if arraydom:
             S = pad6(S)
         ub = fvec(est["ub"])
-        obj.register_system(S, lb=fvec(est["lb"]), ub=(None if np.all(np.isinf(ub)) else ub))
+        # the variance matrix of the spec's state is handed over explicitly (not recomputed from an uncertainty)
+        eps = dict(Epsilon=np.array(est["Eps"], float)) if len(est["Eps"]) else {}
+        obj.register_system(S, lb=fvec(est["lb"]), ub=(None if np.all(np.isinf(ub)) else ub), **eps)
         if B is not None:
             W = np.array(est["W"], float)
             if np.all(W == 1):
                 obj.register_targets(np.array(B, float))
             else:
                 obj.register_targets(np.array(B, float), W=W)
+    # registered last: an uncertainty registered after the system does not touch the system's Epsilon
+    if len(est["fu"]):
+        fu = np.array(est["fu"], float)
+        obj.register_uncertainty(pad6(fu) if arraydom else fu)
     return obj
 
 
@@ -184,6 +193,9 @@ def heavy(obj, arraydom=False):
         q("l1_scaling", lambda: obj.gamut_l1_scaling(PROBES.copy()))
         if obj.underdetermined:
             q("range", lambda: obj.range_of_solutions(PROBES.copy(), error="ignore"))
+            if not isinstance(obj.Epsilon, str):
+                # the variance-minimising fit reads the system's Epsilon (interior probes only: unique optimum)
+                q("minimize_variance", lambda: obj.minimize_variance(PROBES[:2].copy(), l2_eps=1e-3, solver="CLARABEL"))
     return out
 
 
@@ -266,6 +278,21 @@ def _replay_inner(st, mode, bad):
         chk("C14.ref-model", "relative_capture", obj.relative_capture(sig), fvec(ans["relative_capture"][k - 1]))
         if not np.array_equal(sig, keep):
             bad.append(("C14.caller-array-untouched", dict(q="capture", **where0), keep.tolist(), sig.tolist()))
+    # filter uncertainty and the variance it induces
+    if bool(obj.filters_uncertainty is not None) != ans["has_uncertainty"]:
+        bad.append(("C14.ref-model", dict(q="has_uncertainty", **where0), ans["has_uncertainty"], obj.filters_uncertainty is not None))
+    if ans["has_uncertainty"]:
+        for k in (1, 2):
+            sig = pad6(BG[k]) if ad else BG[k].copy()
+            chk("C14.ref-model", "uncertainty_capture", obj.uncertainty_capture(sig), ans["uncertainty_capture"][k - 1], 0)
+    if ans["registered"]:
+        if len(ans["Epsilon"]):
+            if isinstance(obj.Epsilon, str):
+                bad.append(("C14.ref-model", dict(q="Epsilon", **where0), ans["Epsilon"], obj.Epsilon))
+            else:
+                chk("C14.ref-model", "Epsilon", obj.Epsilon, ans["Epsilon"], 0)
+        elif not isinstance(obj.Epsilon, str) or obj.Epsilon != "heteroscedastic":
+            bad.append(("C14.ref-model", dict(q="Epsilon", **where0), "heteroscedastic", np.asarray(obj.Epsilon).tolist()))
     chk("C14.ref-model", "W", np.broadcast_to(np.asarray(obj.W, float), (2,)), ans["W"], 0)
     if bool(obj.registered) != ans["registered"] or bool(obj.registered_targets) != ans["registered_targets"]:
         bad.append(("C14.ref-model", dict(q="flags", **where0), [ans["registered"], ans["registered_targets"]], [bool(obj.registered), bool(obj.registered_targets)]))
@@ -315,6 +342,7 @@ def _replay_inner(st, mode, bad):
         "fit_underdetermined_not_under": lambda: obj.fit_underdetermined(PROBES[:1].copy()),
         "gamut_metric": lambda: obj.compute_gamut(seed=1),
         "sample_unknown_engine": lambda: obj.sample_in_hull(3, seed=1, engine="no-such-engine"),
+        "uncertainty_capture": lambda: obj.uncertainty_capture(pad6(BG[1]) if ad else BG[1].copy()),
     }
     for name, want in ans["errors"].items():
         if want == "n/a":
